@@ -4516,7 +4516,7 @@ class RemoteStreamSource(vf_repository.StreamSource):
         path = self.from_repository.controldir._path_for_remote_call(client)
         args = (path, self.to_format.network_name())
         search_bytes = b"\n".join(
-            [b"%s\t%s" % (key[0].encode("utf-8"), key[1]) for key in missing_keys]
+            [b"\t".join((key[0].encode("utf-8"),) + tuple(key[1:])) for key in missing_keys]
         )
         try:
             (
